@@ -101,6 +101,12 @@ OPS = [
     ('css_user_pt', lambda em, e: css(em, e, 'gp', 'C2', {'stylesheet.intUnit': 'pt'}, USER_SNIPPETS)),
     ('css_nouser', lambda em, e: css(em, e, 'mten+gp', 'C2')),
     ('css_nocache', lambda em, e: css(em, e, 'zom+p10+mten')),
+    ('m_fail_nested', lambda em, e: em.expand('outer+p', {'snippets': {'outer': 'div>inner', 'inner': 'x["'}})),
+    ('m_nested_ok', lambda em, e: em.expand('outer+p', {'snippets': {'outer': 'div>inner', 'inner': 'x[y]'}})),
+    ('m_fail_in_builtin_chain', lambda em, e: em.expand('!', {'snippets': {'meta:vp': 'meta["'}})),
+    ('m_html5', lambda em, e: em.expand('!', e['A'])),
+    ('css_alias', lambda em, e: css(em, e, 'p10r+w10w+m5q', None, {'stylesheet.unitAliases': {'e': 'em', 'p': '%', 'x': 'ex', 'r': ' / @rem', 'w': 'vw'}})),
+    ('css_alias_default', lambda em, e: css(em, e, 'p10r+w10w+m5p', 'C1')),
     ('so_zom_p10', lambda em, e: em.expand('zom+p10+trf-s', e['SO'])),
     ('so_args', lambda em, e: em.expand('trf-s(3)+m1.5', e['SO'])),
     ('css_fn_args', lambda em, e: css(em, e, 'trf-s(2)+trf:translate(10, 20)', 'C1')),
